@@ -73,7 +73,8 @@ Spec == Init /\ [][Next]_vars
 (* ---------------- decisions around the leaf (replayed as cases) ---------------- *)
 \* which name the leaf must be valid for, whether the session is intercepted at all, and whether the
 \* inner request may reach the origin
-AuthKinds == {"dns", "dnsUpper", "ipv4", "ipv6"}
+\* ipv6mapped: an IPv4-mapped IPv6 literal ([::ffff:127.0.0.1]): an IPv6 literal like any other - the leaf names it as it was asked for
+AuthKinds == {"dns", "dnsUpper", "ipv4", "ipv6", "ipv6mapped"}
 SniKinds == {"absent", "same", "other"}
 \* proxyname: a certificate that is valid - for the name of the upstream proxy, not for the origin
 OriginCerts == {"valid", "expired", "wrongname", "untrusted", "proxyname"}
@@ -87,7 +88,7 @@ MCases == { c \in [auth : AuthKinds, port : {443, 8443}, sni : SniKinds, origin 
              /\ (c.prior # "none" => c.auth = "dns" /\ c.port = 443 /\ c.sni # "other" /\ ~c.excluded /\ c.xfp = "absent" /\ c.form = "origin")
              /\ (c.origin = "proxyname" => c.prior # "none")
              /\ (c.form # "origin" => ~c.excluded /\ c.xfp = "absent" /\ c.sni # "other" /\ c.port = 443)
-             /\ (c.auth \in {"ipv4", "ipv6"} => c.sni = "absent")        \* clients send no SNI for IP literals
+             /\ (c.auth \in {"ipv4", "ipv6", "ipv6mapped"} => c.sni = "absent")        \* clients send no SNI for IP literals
              /\ (c.excluded => c.sni # "other" /\ c.xfp = "absent")      \* an excluded name is excluded in any spelling of its case
              /\ (c.sni = "other" => c.origin = "valid" /\ c.xfp = "absent") }
 MExpect(c) == [ intercepted |-> ~c.excluded,
